@@ -55,7 +55,7 @@ public:
     {
         std::unique_lock<std::mutex> lock(mutex_);
         size_t res = ++value_;
-        cv_.notify_one();
+        cv_.notify_all();
         return res;
     }
 
